@@ -151,6 +151,31 @@ Proof.
   constructor; [|constructor]. lia.
 Qed.
 
+(* Paris over IPv6: the builder refuses initial_sequence = 0 (fix for F14), so no issued sequence is zero *)
+Lemma zrange_lower a n : Forall (fun q => a <= q) (zrange a n).
+Proof.
+  revert a; induction n as [|n IH]; intros a; cbn [zrange]; constructor; [lia|].
+  eapply Forall_impl; [|apply IH]. cbn. intros; lia.
+Qed.
+Lemma accept_paris6_nonzero c : Accept c -> proto c = Udp -> multipath c = Paris -> is_v6 (target_addr c) = true ->
+  1 <= initial_sequence c.
+Proof.
+  intros [Hb Hw] Hp Hm Hv. unfold builder_accepts in Hb. apply andb_true_iff in Hb. destruct Hb as [_ Hz].
+  unfold paris6_zero in Hz. rewrite Hp, Hm, Hv in Hz. cbn [andb negb] in Hz.
+  destruct Hw as (_ & _ & _ & _ & Hu & _). unfold u16 in Hu.
+  destruct (initial_sequence c =? 0) eqn:E; [discriminate|]. apply Z.eqb_neq in E. lia.
+Qed.
+Lemma paris6_sequence_nonzero_lemma c s i s' ev e : Accept c -> reach c s -> proto c = Udp -> multipath c = Paris ->
+  is_v6 (target_addr c) = true -> step c s i = Ok (s', ev, e) ->
+  Forall (fun q => 1 <= q) (map p_sequence (ev_probes ev)).
+Proof.
+  intros HA HR Hp Hm Hv Hs.
+  destruct (c07_consecutive_lemma c s i s' ev e HA HR Hs) as [Hmap _]. rewrite Hmap.
+  pose proof (accept_paris6_nonzero c HA Hp Hm Hv) as H1.
+  destruct (c07_invariant_lemma c s HA HR) as (_ & Hlo & _).
+  eapply Forall_impl; [|apply zrange_lower]. cbn. intros; lia.
+Qed.
+
 Ltac crunch H :=
   unfold bind in H;
   repeat match type of H with
